@@ -274,19 +274,21 @@ def t2(repo, res, canon, pc, logic):
         for i, e in enumerate(p.events):
             if stmt_contains(e, lambda x: x is sp):
                 must = path_must(logic, p, i, depth=1)
-                locs = [l.atom.split(' in ', 1)[1] for l in must if not l.pol and l.atom.startswith(M + ' in ')
-                        and not l.atom.split(' in ', 1)[1].startswith('Cluster.')]
                 found = False
-                for cand in locs:
-                    app = False
-                    for x in p.events[i:]:
-                        if x.kind in ('back', 'exit'):
-                            break
-                        for ef in effects_of_event(canon, x):
-                            if ef.kind in ('append', 'add') and ef.loc == cand and ef.arg == M:
-                                app = True
-                    if app:
-                        found, L = True, cand
+                # the machine itself or its unique id (Machine equality is by id) may be what is recorded
+                for K in (M, '%s.id' % M):
+                    locs = [l.atom.split(' in ', 1)[1] for l in must if not l.pol and l.atom.startswith(K + ' in ')
+                            and not l.atom.split(' in ', 1)[1].startswith('Cluster.')]
+                    for cand in locs:
+                        app = False
+                        for x in p.events[i:]:
+                            if x.kind in ('back', 'exit'):
+                                break
+                            for ef in effects_of_event(canon, x):
+                                if ef.kind in ('append', 'add') and ef.loc == cand and ef.arg == K:
+                                    app = True
+                        if app:
+                            found, L = True, cand
                 if not found:
                     ok_dup = False
     what = 'a machine proposed twice in one round is skipped by the per-round list (same expression tested and recorded)'
